@@ -8,7 +8,7 @@ from __future__ import annotations
 import itertools
 import random
 from .refsem import Obj
-from .spec import U, BIT
+from .spec import U, BIT, BV
 from .seqcheck import SeqProgram
 
 HEADER = '''from __future__ import annotations
@@ -48,12 +48,21 @@ def sub(k):
     return ("sub", k)
 
 
+PULSE, PARTIAL = ("pulse",), ("partial",)
+
+
 BREAK, CONTINUE, RETURN = ("break",), ("continue",), ("return",)
+
+
+def await_call(c, with_mark=True):
+    """await hlpN()  where hlpN is a plain local function that executes statements and returns the condition c"""
+    return ("await_call", c, with_mark)
 
 
 class Renderer:
     def __init__(self):
         self.n = 0
+        self.helpers = []  # source lines of plain helper functions (architecture level)
 
     def block(self, stmts, ind):
         out = []
@@ -70,8 +79,18 @@ class Renderer:
             return [f"{ind}self.trace <<= {self.n % 16}", f"{ind}cnt @= cnt + 1", f"{ind}self.seen <<= cnt"]
         if k == "vinc":
             return [f"{ind}v @= v + 1"]
+        if k == "pulse":
+            return [f"{ind}self.pulse ^= True"]
+        if k == "partial":
+            # a noreset object written through a slice and a single bit only
+            return [f"{ind}self.keep[1:0] <<= cnt[1:0]", f"{ind}self.keep[2] <<= self.in0"]
         if k == "await":
             return [f"{ind}await {s[1]}"]
+        if k == "await_call":
+            name = f"hlp{len(self.helpers)}"
+            body = self.stmt(("mark",), "    ") if s[2] else ["    pass"]
+            self.helpers.append([f"def {name}():", "    nonlocal cnt, v"] + body + [f"    return {s[1]}"])
+            return [f"{ind}await {name}()"]
         if k == "if":
             out = [f"{ind}if {s[1]}:"] + self.block(s[2], ind + "    ")
             if s[3] is not None:
@@ -104,6 +123,11 @@ def render(body, subs=(), reset="sync", ename="Coro", active_low=False, falling=
               f"    seen = {seen_decl}"]
     if on_reset:
         lines.append("    flag = Port.output(Unsigned[2], default=Null)")
+    uses = repr((body, subs))
+    if "'pulse'" in uses:
+        lines.append("    pulse = Port.output(Bit, default=False)")     # only ever pushed
+    if "'partial'" in uses:
+        lines.append("    keep = Port.output(BitVector[3], default=Null, noreset=True)")   # written through slices / bits only
     lines += ["    def architecture(self):",
               f"        cnt = {cnt_decl}",
               "        v = Variable[Unsigned[2]](Null, name='v')"]
@@ -126,10 +150,13 @@ def render(body, subs=(), reset="sync", ename="Coro", active_low=False, falling=
         args.append("on_reset=[on_rst]")
     if step_cond:
         args.append(f"step_cond=lambda: {step_cond}")
+    body_lines = r.block(body, "            ")
+    for h in r.helpers:
+        lines += ["        " + ln for ln in h]
     lines.append(f"        @std.sequential({', '.join(args)})")
     lines.append("        async def proc():")
     lines.append("            nonlocal cnt, v")
-    lines += r.block(body, "            ")
+    lines += body_lines
     if on_reset:
         lines += ["            self.flag <<= 1"]
     src = "\n".join(lines) + "\n"
@@ -142,6 +169,10 @@ def render(body, subs=(), reset="sync", ename="Coro", active_low=False, falling=
     objs["v"] = Obj("v", U(2), "var", 0)
     if on_reset:
         objs["flag"] = Obj("flag", U(2), "out", 0)
+    if "'pulse'" in uses:
+        objs["pulse"] = Obj("pulse", BIT, "out", 0)
+    if "'partial'" in uses:
+        objs["keep"] = Obj("keep", BV(3), "out", 0, noreset=True)
     return SeqProgram(source=src, objs=objs, proc="proc", reset="reset" if reset != "none" else None, entity=ename,
                       reset_active=0 if active_low else 1, reset_async=reset == "async", rising=not falling,
                       meta={"body": body, "subs": subs, "on_reset": [("flag", 2)] if on_reset else [], "step_cond": step_cond})
@@ -186,6 +217,16 @@ def core_programs():
     # nested loops
     P.append([M, while_("self.in0", [M, while_("self.in1", [M, A0 if False else AT]), M])])
     P.append([while_("True", [M, A0, while_("self.in1", [vinc(), if_("v == 2", [BREAK])]), M, if_("self.in2", [BREAK])]), M])
+    # outer break placed after an inner loop; nested loops with break / continue on both levels
+    P.append([while_("self.in0", [M, while_("self.in1", [M, A0]), if_("self.in2", [BREAK]), M, AT]), M])
+    P.append([M, while_("True", [while_("self.in1", [M, AT, if_("self.in0", [BREAK])]), M, A0, if_("self.in2", [BREAK], [CONTINUE])]), M])
+    # awaits whose operand is a plain helper call that executes statements first (first action, later, inside a loop;
+    # a helper without statements leaves the await 'first')
+    C0, C1, CN = await_call("self.in0"), await_call("self.in1"), await_call("self.in0", with_mark=False)
+    P += [[C0, M], [C0, M, A1], [M, C0, M], [CN, M], [CN, M, AT, M], [A0, C1, M], [C0, C1, M],
+          [while_("self.in2", [C0, M]), M], [M, if_("self.in1", [C0], [M]), M], [C0, if_("self.in1", [M, A0]), M]]
+    # if / else with an await in one branch only, followed by common code that awaits again
+    P += [[M, if_("self.in1", [M], [A0, M]), M, AT, M], [if_("self.in1", [M], [AT]), M, A0], [M, if_("self.in0", [A1], [M]), vinc(), M]]
     return P
 
 
